@@ -295,6 +295,7 @@ func threadExit(e *exec, t *thread) {
 		return
 	}
 	// normal exit (or Goexit from user code)
+	raceReleaseMerge(unsafe.Pointer(t)) // Thread.Join acquires
 	t.state = stDone
 	for _, j := range t.joiners {
 		e.makeRunnable(j)
